@@ -29,6 +29,9 @@ from .tsseq import Lin, add, lin, mk, mul, sym
 
 
 # ----------------------------------------------------------------------------- values
+_IS_GEN: dict = {}        # function node -> does its own body yield (a fact of the syntax tree, computed once per node)
+
+
 class Obj:
     def __init__(self, cls: str, fields: Optional[dict] = None, label: str = '') -> None:
         self.cls = cls
@@ -216,7 +219,9 @@ class PosInterp:
                 if kd is None:
                     raise AnalysisError(f'POS-SEM: missing keyword argument {ka.arg} calling {fn.qualname}')
                 env[ka.arg] = self.default_value(fn, ka.arg, kd)
-        is_gen = any(isinstance(x, (ast.Yield, ast.YieldFrom)) for x in _walk_own(fn.node))
+        is_gen = _IS_GEN.get(fn.node)
+        if is_gen is None:
+            is_gen = _IS_GEN[fn.node] = any(isinstance(x, (ast.Yield, ast.YieldFrom)) for x in _walk_own(fn.node))
         if is_gen:
             self._yields.append([])
         try:
@@ -386,6 +391,21 @@ class PosInterp:
                 return out_
             if n == 'id':
                 return id(args[0])
+            if n in ('getattr', 'hasattr') and len(args) in (2, 3) and isinstance(args[1], str) and isinstance(args[0], Obj):
+                # attribute of an abstract object by name: what `obj.name` evaluates to; the default / False when the object has none
+                o_, nm_ = args[0], args[1]
+                if nm_ in o_.f:
+                    return o_.f[nm_] if n == 'getattr' else True
+                m_ = self.method(o_.cls, nm_)
+                if m_ is not None:
+                    if n == 'hasattr':
+                        return True
+                    return self.call_function(m_, [o_], {}) if m_.kind == 'getter' else Bound(o_, m_)
+                if n == 'hasattr':
+                    return False
+                if len(args) == 3:
+                    return args[2]
+                raise Raised(f'AttributeError: {o_!r} has no attribute {nm_}')
             if n == 'sorted':
                 items_ = self.iter_of(args[0], node)
                 if 'key' in kwargs and kwargs['key'] is not None:
@@ -786,7 +806,7 @@ class PosInterp:
                 return env[e.id]
             if e.id in ('Position', '_StoreHandle', '_StoreBlock', 'TokenStore'):
                 return ClassRef(e.id)
-            if e.id in ('len', 'range', 'slice', 'map', 'filter', 'enumerate', 'list', 'isinstance', 'max', 'min', 'bool', 'abs', 'next', 'reversed', 'tuple', 'str', 'int', 'dict', 'iter', 'any', 'all', 'sorted', 'zip', 'sum', 'set', 'frozenset', 'id', 'repr'):
+            if e.id in ('len', 'range', 'slice', 'map', 'filter', 'enumerate', 'list', 'isinstance', 'max', 'min', 'bool', 'abs', 'next', 'reversed', 'tuple', 'str', 'int', 'dict', 'iter', 'any', 'all', 'sorted', 'zip', 'sum', 'set', 'frozenset', 'id', 'repr', 'getattr', 'hasattr'):
                 return Builtin(e.id)
             if e.id == 'NotImplemented':
                 return 'NotImplemented'
@@ -810,7 +830,7 @@ class PosInterp:
                 return ClassRef(e.id)                       # a class of the repository, named in an isinstance test or a constructor call
             raise self.err(e, 'name')
         if isinstance(e, ast.Attribute):
-            if norm(e) in ('copy.copy', 'copy.deepcopy', 'itertools.accumulate', 'itertools.chain', 'itertools.count', 'itertools.groupby', 'functools.reduce',
+            if isinstance(e.value, ast.Name) and e.value.id in ('copy', 'itertools', 'functools', 'operator') and norm(e) in ('copy.copy', 'copy.deepcopy', 'itertools.accumulate', 'itertools.chain', 'itertools.count', 'itertools.groupby', 'functools.reduce',
                            'operator.attrgetter', 'operator.itemgetter', 'operator.imul', 'operator.mul', 'operator.itruediv', 'operator.truediv',
                            'operator.neg', 'operator.pos',
                            'operator.iadd', 'operator.add', 'operator.isub', 'operator.sub'):
@@ -846,10 +866,8 @@ class PosInterp:
                               'is_finite': lambda: True, 'is_nan': lambda: False, 'normalize': lambda: base}[e.attr])
             if type(base).__name__ == 'DecimalTuple' and e.attr in ('sign', 'digits', 'exponent'):
                 return getattr(base, e.attr)
-            if isinstance(base, str) and e.attr in ('strip', 'lstrip', 'rstrip', 'startswith', 'endswith', 'removeprefix', 'removesuffix', 'split',
-                                                    'upper', 'lower', 'replace', 'isspace', 'join', 'splitlines', 'partition', 'rpartition', 'find',
-                                                    'rfind', 'count', 'isdigit'):
-                return getattr(base, e.attr)          # a method of a concrete text: pure
+            if isinstance(base, str) and not e.attr.startswith('_') and hasattr(str, e.attr):
+                return getattr(base, e.attr)          # a method of a concrete text: every one of them is pure
             if isinstance(base, list) and e.attr in ('append', 'extend', 'pop', 'reverse', 'insert', 'clear', 'copy', 'index', 'remove', 'discard', 'add'):
                 return _ListAppend(base, e.attr)
             if isinstance(base, dict) and e.attr in ('get', 'items', 'keys', 'values', 'pop', 'setdefault'):
@@ -861,7 +879,7 @@ class PosInterp:
                 lo = self.expr(e.slice.lower, env)
                 hi = self.expr(e.slice.upper, env)
                 st = self.expr(e.slice.step, env)
-                if not all(x is None or isinstance(x, int) for x in (lo, hi, st)) or not isinstance(base, (list, tuple)):
+                if not all(x is None or isinstance(x, int) for x in (lo, hi, st)) or not isinstance(base, (list, tuple, str)):
                     raise self.err(e, 'slice')
                 return base[slice(lo, hi, st)]
             i = self.expr(e.slice, env)
